@@ -22,9 +22,13 @@ type c16Op struct {
 	assoc  bool
 	peer   int // 0 or 1
 	status ConnectednessType
+	other  bool // assoc: with ANOTHER group ("h") than the one the waiters watch (a peer may serve several groups)
 }
 
 func (o c16Op) String() string {
+	if o.assoc && o.other {
+		return fmt.Sprintf("Associate(h,p%d)", o.peer+1)
+	}
 	if o.assoc {
 		return fmt.Sprintf("Associate(g,p%d)", o.peer+1)
 	}
@@ -66,6 +70,9 @@ func c16ConnScenario(rep *verifkit.Report, ops []c16Op, nwaiters int, withCancel
 	final := map[peer.ID]ConnectednessType{}
 	everHad := map[peer.ID]map[ConnectednessType]bool{peers[0]: {0: true}, peers[1]: {0: true}}
 	for _, o := range ops {
+		if o.assoc && o.other {
+			continue // the watched group's membership is unchanged
+		}
 		if o.assoc {
 			assoc[peers[o.peer]] = true
 		} else {
@@ -76,7 +83,9 @@ func c16ConnScenario(rep *verifkit.Report, ops []c16Op, nwaiters int, withCancel
 	sc := &verifsched.Scenario{Name: fmt.Sprint(opNames), Roles: map[string]func(){}, Finite: []string{"updater"}}
 	sc.Roles["updater"] = func() {
 		for _, o := range ops {
-			if o.assoc {
+			if o.assoc && o.other {
+				m.AssociatePeer("h", peers[o.peer])
+			} else if o.assoc {
 				m.AssociatePeer("g", peers[o.peer])
 			} else {
 				m.UpdateState(peers[o.peer], o.status)
@@ -342,6 +351,12 @@ func TestVerifC16Conn(t *testing.T) {
 			break
 		}
 	}
+	// a peer that serves two groups: associated with the watched group and with another one, in both orders, then updated
+	chosen = append(chosen,
+		[]c16Op{{assoc: true, peer: 0}, {assoc: true, peer: 0, other: true}, {peer: 0, status: ConnectednessTypeConnected}},
+		[]c16Op{{assoc: true, peer: 0, other: true}, {assoc: true, peer: 0}, {peer: 0, status: ConnectednessTypeConnected}},
+		[]c16Op{{assoc: true, peer: 1}, {peer: 1, status: ConnectednessTypeConnected}, {assoc: true, peer: 1, other: true}, {peer: 1, status: ConnectednessTypeDisconnected}},
+	)
 	instrumented := false
 	total := verifsched.ExploreStats{}
 	for si, ops := range chosen {
